@@ -282,5 +282,3 @@ instance : Transc BM :=
   { exp := fun a => ofBF (BF.exp a.v), sqrt := fun a => ofBF (BF.sqrt a.v), pi := ofBF BF.piVal }
 end BM
 
-/-- exact rationals: used for the purely algebraic parts (tables, decision logic) -/
-instance : Num Rat := { nat := fun n => (n : Rat) }
